@@ -1,5 +1,5 @@
 (* C06 — fork coins: scripts are tokenised by Bitcoin push rules and typed by template. Pinned statements only: each theorem is closed by `exact` of a lemma proved in theories/. *)
-From RBP Require Import Bytes Hashes Codec Base58 Bech32 Segwit Utf8 ScriptCustom CustomTop ScriptCustomP ScriptBtc ScriptBtcP ScriptBtcSpec Wire Block Index Model OpReturnP.
+From RBP Require Import Bytes Hashes Codec Base58 Bech32 Segwit Utf8 ScriptCustom CustomTop ScriptCustomP ScriptBtc ScriptBtcP ScriptBtcSpec Wire Block Index Model OpReturnP ScriptBtcComplete ForkGrammar.
 From RBP Require Drive Merkle Utxo Stats OutProto Reader Published Misc.
 
 Theorem C06_ip_machine_is_structural_tokenizer :
@@ -90,6 +90,46 @@ Theorem C06_address_only_for_address_types :
   forall (bs : bytes) (v : N) (a : list N), snd (eval_custom bs v) = Some a -> In (fst (eval_custom bs v)) [PP2PKH; PP2PK; PP2SH].
 Proof. exact fork_address_only_for_address_types. Qed.
 
+Theorem C06_tokeniser_is_push_grammar :
+  forall (l : bytes) (ts : list tok), wfb l = true -> tokenise l = Some ts <-> (exists its : list item, Forall item_ok its /\ l = enc_items its /\ ts = sem its).
+Proof. exact tokenise_iff. Qed.
+
+Theorem C06_verdict_of_items :
+  forall (its : list item) (v : N), Forall item_ok its -> eval_custom (enc_items its) v = classify (sem its) v.
+Proof. exact fork_verdict_of_items. Qed.
+
+Theorem C06_not_a_push_sequence_not_recognised :
+  forall (bs : bytes) (v : N), wfb bs = true -> (forall its : list item, Forall item_ok its -> bs <> enc_items its) -> eval_custom bs v = (PNotRecognised, None).
+Proof. exact fork_not_items_not_recognised. Qed.
+
+Theorem C06_noop_irrelevant :
+  forall (a : list item) (c : N) (b : list item) (v : N), Forall item_ok a -> Forall item_ok b -> 78 < c -> is_noop c = true -> eval_custom (enc_items (a ++ ItOp c :: b)) v = eval_custom (enc_items (a ++ b)) v.
+Proof. exact noop_irrelevant. Qed.
+
+Theorem C06_push_form_irrelevant :
+  forall (a : list item) (f1 f2 : pform) (d : bytes) (b : list item) (v : N), Forall item_ok a -> Forall item_ok b -> pfits f1 d -> pfits f2 d -> d <> [] -> eval_custom (enc_items (a ++ ItPush f1 d :: b)) v = eval_custom (enc_items (a ++ ItPush f2 d :: b)) v.
+Proof. exact push_form_irrelevant. Qed.
+
+Theorem C06_p2pkh_bytes :
+  forall (f : pform) (h : bytes) (v : N), pfits f h -> h <> [] -> eval_custom ([118; 169] ++ enc_push f h ++ [136; 172]) v = (PP2PKH, Some (hash160_to_address v h)).
+Proof. exact fork_p2pkh_bytes. Qed.
+
+Theorem C06_p2sh_bytes :
+  forall (f : pform) (h : bytes) (v : N), pfits f h -> h <> [] -> eval_custom ([169] ++ enc_push f h ++ [135]) v = (PP2SH, Some (hash160_to_address 5 h)).
+Proof. exact fork_p2sh_bytes. Qed.
+
+Theorem C06_p2pk_bytes :
+  forall (f : pform) (k : bytes) (v : N), pfits f k -> k <> [] -> eval_custom (enc_push f k ++ [172]) v = (PP2PK, Some (public_key_to_addr v k)).
+Proof. exact fork_p2pk_bytes. Qed.
+
+Theorem C06_multisig_bytes :
+  forall (f1 f2 f3 : pform) (a b c : bytes) (v : N), pfits f1 a -> pfits f2 b -> pfits f3 c -> a <> [] -> b <> [] -> c <> [] -> eval_custom ([82] ++ enc_push f1 a ++ enc_push f2 b ++ enc_push f3 c ++ [83; 174]) v = (PMultiSig, None).
+Proof. exact fork_multisig_bytes. Qed.
+
+Theorem C06_empty_push_in_slot :
+  forall (f : pform) (v : N), eval_custom ([118; 169] ++ enc_push f [] ++ [136; 172]) v = (PNotRecognised, None).
+Proof. exact fork_p2pkh_empty_push_not_recognised. Qed.
+
 Print Assumptions C06_ip_machine_is_structural_tokenizer.
 Print Assumptions C06_eval_total.
 Print Assumptions C06_never_panics.
@@ -112,3 +152,13 @@ Print Assumptions C06_p2pk_address_decodes.
 Print Assumptions C06_base58check_roundtrip.
 Print Assumptions C06_push_forms_tokenise.
 Print Assumptions C06_address_only_for_address_types.
+Print Assumptions C06_tokeniser_is_push_grammar.
+Print Assumptions C06_verdict_of_items.
+Print Assumptions C06_not_a_push_sequence_not_recognised.
+Print Assumptions C06_noop_irrelevant.
+Print Assumptions C06_push_form_irrelevant.
+Print Assumptions C06_p2pkh_bytes.
+Print Assumptions C06_p2sh_bytes.
+Print Assumptions C06_p2pk_bytes.
+Print Assumptions C06_multisig_bytes.
+Print Assumptions C06_empty_push_in_slot.
